@@ -146,7 +146,7 @@ ExtWellFormed(c) ==
     /\ Len(c.dims) = 3 /\ Len(c.types) = 6 /\ Len(c.thick) = 6
     /\ \A f \in Faces : c.types[f] \in B!Types /\ c.thick[f] >= 1
     /\ \A a \in Axes : B!Hi(c.types, c.thick, a, c.dims[a]) > B!Lo(c.types, c.thick, a)
-    /\ c.err \in {"none", "other"}
+    /\ c.err \in {"none", "other"}                       \* "setup" (the scene could not be built) is a harness failure
     /\ c.err = "none" => /\ Len(c.arrays) >= 1
                          /\ \A k \in 1..Len(c.arrays) : LET A == c.arrays[k] IN
                               /\ Len(A.before) = Len(A.after) /\ Len(A.before) >= 1
